@@ -281,16 +281,25 @@ def runBatch(prop: str, tier: str, baseSeed: int, runsOverride: int | None = Non
     for v in sorted(agg["violations"], key=lambda v: (len(v["steps"]), v["index"])):
         byKey.setdefault(v["violation"]["key"], v)
     replayPaths = []
+    unconfirmed: list = []
     for rank, (key, v) in enumerate(sorted(byKey.items())):
         # every distinct key gets a verified replay file; only the first few are
         # minimised (minimising a C01 history costs minutes)
         path = _reportViolation(prop, tier, baseSeed, key, v, ctxmp,
                                 minimiseIt=rank < MAX_MINIMISED_KEYS.get(prop, 6))
         if path is None:
-            exitCode = max(exitCode, EXIT_NONDET)
+            unconfirmed.append(key)
         else:
             replayPaths.append(path)
-            exitCode = max(exitCode, EXIT_VIOLATION)
+    if replayPaths:
+        # at least one violation is substantiated by a replay in a fresh process;
+        # keys that could not be reproduced are listed, they do not change the verdict
+        exitCode = EXIT_VIOLATION
+        for key in unconfirmed:
+            print(f"NOTE violation key={key} was seen in the batch but did not reproduce in a "
+                  "fresh process (not counted)")
+    elif unconfirmed:
+        exitCode = EXIT_NONDET
 
     # ---- known findings re-observed
     knownSeen = collections.Counter(h["key"] for h in agg["knownHits"])
@@ -384,18 +393,51 @@ def _reportViolation(prop: str, tier: str, baseSeed: int, key: str, v: dict,
     with open(path, "w") as fh:
         json.dump(data, fh, indent=1, sort_keys=True, default=core._jsonDefault)
     # the replay must reproduce the same execution in a fresh process
-    out = _freshInterpreter([prop, "--replay", path, "--quiet"], hashSeed="3", timeout=timeout)
-    ok = False
-    for line in out.splitlines():
-        if line.startswith("REPLAY-RESULT "):
-            info = json.loads(line[len("REPLAY-RESULT "):])
-            ok = (info["violation"] is not None
-                  and info["violation"]["key"] == key and info["digest"] == mini["digest"])
-    if not ok:
-        print(f"HARNESS-NONDETERMINISM replay of {path} in a fresh process did not "
-              f"reproduce key {key} with the same event-log digest")
-        print(out[-3000:])
-        return None
+    def replayOnce() -> tuple[bool, bool, str]:
+        out = _freshInterpreter([prop, "--replay", path, "--quiet"], hashSeed="3",
+                                timeout=timeout)
+        sameKey = sameDigest = False
+        for line in out.splitlines():
+            if line.startswith("REPLAY-RESULT "):
+                info = json.loads(line[len("REPLAY-RESULT "):])
+                sameKey = info["violation"] is not None and info["violation"]["key"] == key
+                sameDigest = sameKey and info["digest"] == data["digest"]
+        return sameKey, sameDigest, out
+
+    sameKey, sameDigest, out = replayOnce()
+    if not sameDigest:
+        # The system under test itself may be nondeterministic where it is broken
+        # (results read from uninitialised memory, for instance).  Try again, then
+        # fall back to the unminimised history; a violation that reproduces in some
+        # fresh process is still reported as a violation, flagged as flaky.
+        hits, tries = int(sameKey), 1
+        for _ in range(3):
+            k, d, out = replayOnce()
+            tries += 1
+            hits += int(k)
+            sameDigest = sameDigest or d
+        if hits == 0 and mini["steps"] != v["steps"]:
+            data.update(cfg=v["cfg"], steps=v["steps"], violation=v["violation"],
+                        digest=v["digest"], events=[])
+            data["minimised"]["converged"] = False
+            with open(path, "w") as fh:
+                json.dump(data, fh, indent=1, sort_keys=True, default=core._jsonDefault)
+            for _ in range(3):
+                k, d, out = replayOnce()
+                tries += 1
+                hits += int(k)
+        if hits == 0:
+            print(f"HARNESS-NONDETERMINISM replay of {path} in a fresh process did not "
+                  f"reproduce key {key} ({tries} attempts)")
+            print(out[-3000:])
+            return None
+        data["flaky"] = {"reproduced": hits, "attempts": tries,
+                         "note": "the violating behaviour itself is not deterministic "
+                                 "(e.g. values read from uninitialised memory)"}
+        with open(path, "w") as fh:
+            json.dump(data, fh, indent=1, sort_keys=True, default=core._jsonDefault)
+        print(f"NOTE violation key={key} reproduces in {hits} of {tries} fresh-process replays: "
+              "the broken behaviour is itself nondeterministic")
     print(f"violation key={key} seed_i={v['seedI']} run_index={v['index']} "
           f"steps={len(mini['steps'])} (from {len(v['steps'])}) :: {mini['violation']['message']}")
     print(f"VIOLATION property={prop} replay={path}")
